@@ -1,16 +1,16 @@
 (* Proofs/MroIRProofs.v -- the interpretation of the bodies translated from the CURRENT pydoctor/mro.py
    (Gen/MroCode.v) is the hand-written Model/Mro.v, for every input.
-   The proofs are symbolic executions of the generated code: they never mention a local variable by name or
+   The proofs are symbolic executions of the generated code.  They never mention a local variable by name or
    number (parameters are referred to by position, the two long-lived locals of _merge by the roles the
-   translator computes), so renaming locals or re-ordering independent statements does not disturb them. *)
+   translator computes); loops are handled by generic loop rules (first hit / no hit over a mapped list) whose
+   premises are discharged by symbolic execution of whatever the loop body is; where the source may express
+   the same thing with different control structure (comprehension vs. early-return loop, return inside the
+   while vs. break and return after it, inline search vs. helper function) the scripts try each reading. *)
 From Coq Require Import NArith List Bool Lia Arith.
 From PydoctorVerif Require Import Model.Mro Model.MroIR Gen.MroCode Proofs.MroProofs.
 Import ListNotations.
 
 (* ---- generic facts about the interpreter ------------------------------------------------------------ *)
-Lemma existsb_veq_obj c t : existsb (veq (VObj c)) (map VObj t) = mem c t.
-Proof. unfold mem. rewrite existsb_map_. reflexivity. Qed.
-
 Lemma map_eres_map {X} (f : value -> eres) (g k : X -> value) xs :
   (forall x, In x xs -> f (g x) = EV (k x)) -> map_eres f (map g xs) = EV (VList (map k xs)).
 Proof.
@@ -21,11 +21,22 @@ Qed.
 Lemma truths_bools {X} (b : X -> bool) xs : truths (map (fun x => VBool (b x)) xs) = Some (map b xs).
 Proof. induction xs as [|x xs IH]; [reflexivity|]. cbn [map truths truth]. now rewrite IH. Qed.
 
+Lemma truths_seqs ls : truths (map of_seq ls) = Some (map (fun d => negb (Nat.eqb (length d) 0)) ls).
+Proof.
+  induction ls as [|d ls IH]; [reflexivity|]. cbn [map truths truth of_seq]. now rewrite map_length, IH.
+Qed.
+
 Lemma existsb_id_map {X} (b : X -> bool) xs : existsb (fun y => y) (map b xs) = existsb b xs.
 Proof. now rewrite existsb_map_. Qed.
 
 Lemma forallb_id_map {X} (b : X -> bool) xs : forallb (fun y => y) (map b xs) = forallb b xs.
 Proof. induction xs as [|x xs IH]; [reflexivity|]. cbn. now rewrite IH. Qed.
+
+Lemma exhausted_not_any ls : negb (existsb (fun d => negb (Nat.eqb (length d) 0)) ls) = exhausted ls.
+Proof.
+  unfold exhausted. induction ls as [|d ls IH]; [reflexivity|]. cbn [existsb forallb].
+  rewrite negb_orb, negb_involutive, IH. reflexivity.
+Qed.
 
 Lemma objs_map l : objs (map VObj l) = Some l.
 Proof. induction l as [|c l IH]; [reflexivity|]. cbn [map objs]. now rewrite IH. Qed.
@@ -33,8 +44,89 @@ Proof. induction l as [|c l IH]; [reflexivity|]. cbn [map objs]. now rewrite IH.
 Lemma of_seq_app acc c : VList (map VObj acc ++ [VObj c]) = of_seq (acc ++ [c]).
 Proof. unfold of_seq. now rewrite map_app. Qed.
 
+Lemma existsb_veq_obj c t : existsb (veq (VObj c)) (map VObj t) = mem c t.
+Proof. unfold mem. rewrite existsb_map_. reflexivity. Qed.
+
 Definition eres_of_mres (m : mres) : eres :=
   match m with MOk r => EV (of_seq r) | MValueError => EX ValueError | MOutOfFuel => EFuel end.
+
+(* ---- loop rules ------------------------------------------------------------------------------------------ *)
+Definition passes (o : outcome) : Prop := o = ONormal \/ o = OContinue.
+Definition stops (o : outcome) : Prop := match o with ONormal | OContinue => False | _ => True end.
+Definition exit_of (o : outcome) : outcome := match o with OBreak => ONormal | _ => o end.
+
+Section LoopRules.
+  Context {X : Type}.
+  Variable g : X -> value.                    (* the list iterated over is map g xs *)
+  Variable hit : X -> option outcome.         (* Some o: on this element the body leaves the loop with outcome o *)
+  Variable I : env -> Prop.                   (* holds before every pass *)
+  Variable Post : X -> env -> Prop.           (* holds after the pass that leaves the loop *)
+
+  Fixpoint first_hit (xs : list X) : option (X * outcome) :=
+    match xs with
+    | [] => None
+    | a :: rest => match hit a with Some o => Some (a, o) | None => first_hit rest end
+    end.
+
+  Definition step_ok (x : var) (step : env -> res) (upd : X -> value) : Prop :=
+    forall en a, I en ->
+      exists e1 o, step (set en x (g a)) = (e1, o) /\
+        match hit a with
+        | Some o' => o = o' /\ stops o' /\ Post a e1
+        | None => passes o /\ I e1 /\ e1 x = upd a
+        end.
+
+  Lemma for_loop_rule x step orelse upd :
+    step_ok x step upd -> forall xs en, I en ->
+    exists e1, match first_hit xs with
+               | Some (a, o) => for_loop x step orelse (map g xs) en = (e1, exit_of o) /\ Post a e1
+               | None => for_loop x step orelse (map g xs) en = orelse e1 /\ I e1
+               end.
+  Proof.
+    intros Hs. induction xs as [|a xs IH]; intros en HI; cbn [map for_loop first_hit].
+    - exists en. split; [reflexivity | assumption].
+    - destruct (Hs en a HI) as (e1 & o & Hst & Hm). rewrite Hst. destruct (hit a) as [o'|].
+      + destruct Hm as (-> & Hstop & HP). exists e1. destruct o'; cbn in Hstop; try contradiction; (split; [reflexivity | assumption]).
+      + destruct Hm as ([-> | ->] & HI1 & _); apply IH; assumption.
+  Qed.
+
+  Lemma forfield_loop_rule x step upd :
+    step_ok x step upd -> forall xs en, I en ->
+    exists l' e1, match first_hit xs with
+                  | Some (a, o) => forfield_loop x step (map g xs) en = (l', (e1, exit_of o)) /\ Post a e1
+                  | None => forfield_loop x step (map g xs) en = (map upd xs, (e1, ONormal)) /\ I e1
+                  end.
+  Proof.
+    intros Hs. induction xs as [|a xs IH]; intros en HI; cbn [map forfield_loop first_hit].
+    - exists [], en. split; [reflexivity | assumption].
+    - destruct (Hs en a HI) as (e1 & o & Hst & Hm). rewrite Hst. destruct (hit a) as [o'|].
+      + destruct Hm as (-> & Hstop & HP).
+        destruct o'; cbn in Hstop; try contradiction; (eexists; exists e1; split; [reflexivity | assumption]).
+      + destruct Hm as (Hp & HI1 & Hx). destruct (IH e1 HI1) as (l' & e2 & H2).
+        destruct (first_hit xs) as [[b ob]|]; destruct H2 as [H2 H3]; destruct Hp as [-> | ->];
+          rewrite H2, ?Hx; [exists (upd a :: l'), e2 | exists (upd a :: l'), e2 | exists [], e2 | exists [], e2];
+          (split; [reflexivity | assumption]).
+  Qed.
+End LoopRules.
+
+(* for x, y in zip(s._lists, ws) without early exit *)
+Lemma forfieldzip_loop_rule {X} (g g2 upd : X -> value) (I : env -> Prop) x y step :
+  (forall en a, I en -> exists e1 o, step (set (set en x (g a)) y (g2 a)) = (e1, o) /\ passes o /\ I e1 /\ e1 x = upd a) ->
+  forall xs en, I en ->
+  exists e1, forfieldzip_loop x y step (map g xs) (map g2 xs) en = (map upd xs, (e1, ONormal)) /\ I e1.
+Proof.
+  intros Hs. induction xs as [|a xs IH]; intros en HI; cbn [map forfieldzip_loop].
+  - exists en. split; [reflexivity | assumption].
+  - destruct (Hs en a HI) as (e1 & o & Hst & Hp & HI1 & Hx). rewrite Hst.
+    destruct (IH e1 HI1) as (e2 & H2 & H3). destruct Hp as [-> | ->]; rewrite H2, Hx; (exists e2; split; [reflexivity | assumption]).
+Qed.
+
+(* ---- symbolic execution ------------------------------------------------------------------------------------ *)
+Ltac ksimp :=
+  cbn -[head_ir tail_ir heads_ir tails_ir exhausted_ir contains_ir remove_ir newdl_ir helper_ir merge_ir mro_ir
+        for_loop forfield_loop forfieldzip_loop while_loop map_eres mro_all merge first_candidate].
+
+Ltac env_rw := repeat match goal with H : ?en ?k = _ |- context [?en ?k] => rewrite H end.
 
 (* ---- layer 0: Dependency.head / Dependency.tail ------------------------------------------------------- *)
 Lemma head_ir_eq d : head_ir mro_code (of_seq d) = EV (of_head (d_head d)).
@@ -46,25 +138,66 @@ Proof.
   rewrite ?Nat.sub_0_r, ?firstn_all. reflexivity.
 Qed.
 
-(* ---- layer 1: DependencyList ------------------------------------------------------------------------- *)
-Ltac open1 := unfold contains_ir, heads_ir, tails_ir, exhausted_ir, remove_ir, newdl_ir, call1, call1_self,
-                     call_self, call_value, call.
+(* ---- tactics for the bodies ---------------------------------------------------------------------------------- *)
+Ltac open_calls := unfold contains_ir, heads_ir, tails_ir, exhausted_ir, remove_ir, newdl_ir, call1, call1_self,
+                          call_self, call_value, call.
+(* unfold the named loop block that is about to be executed *)
+Ltac open_block := match goal with |- context [exec _ _ _ _ _ _ _ _ _ ?b _] => unfold b end.
+Ltac bool_case :=
+  match goal with
+  | |- context [truthy ?c] => destruct (truthy c) eqn:?
+  | |- context [in_tails ?c ?ls] => destruct (in_tails c ls) eqn:?
+  | |- context [mem ?c ?l] => destruct (mem c l) eqn:?
+  | |- context [N.eqb ?a ?b] => destruct (N.eqb a b) eqn:?
+  | |- context [Nat.eqb (length ?d) 0] => destruct (Nat.eqb (length d) 0) eqn:?
+  end.
+Lemma existsb_eta c l : existsb (fun x => N.eqb c x) l = mem c l.
+Proof. reflexivity. Qed.
+Ltac sym0 := ksimp; env_rw; rewrite ?head_ir_eq, ?tail_ir_eq, ?map_length, ?existsb_map_; cbn beta; rewrite ?existsb_eta.
+Ltac close_step :=
+  do 2 eexists; (split; [reflexivity|]); cbn; unfold passes; repeat split; ksimp; env_rw; auto.
 
+Lemma first_hit_if {X} (P : X -> bool) (o : outcome) xs :
+  match first_hit (fun a => if P a then Some o else None) xs with
+  | Some (_, o') => o' = o /\ existsb P xs = true
+  | None => existsb P xs = false
+  end.
+Proof.
+  induction xs as [|a xs IH]; cbn [first_hit existsb]; [reflexivity|].
+  destruct (P a); cbn [orb]; [split; reflexivity | exact IH].
+Qed.
+
+(* ---- layer 1a: the read-only members of DependencyList --------------------------------------------------------- *)
 Lemma contains_ir_eq ls c :
   contains_ir mro_code (VDL (of_seqs ls)) (VObj c) = EV (VBool (in_tails c ls)).
 Proof.
-  open1. cbn -[map_eres head_ir tail_ir].
-  rewrite (map_eres_map _ of_seq (fun d => VBool (mem c (d_tail d)))).
-  - cbn -[truths]. rewrite truths_bools, existsb_id_map. reflexivity.
-  - intros d _. cbn -[head_ir tail_ir]. rewrite tail_ir_eq. cbn. unfold mem. now rewrite existsb_map_.
+  open_calls. cbn [c_contains mro_code]. ksimp.
+  first
+  [ (* any([item in l.tail for l in self._lists]) *)
+    rewrite (map_eres_map _ of_seq (fun d => VBool (mem c (d_tail d))));
+    [ cbn -[truths]; rewrite truths_bools, existsb_id_map; reflexivity
+    | intros d _; repeat sym0; reflexivity ]
+  | (* for l in self._lists: if item in l.tail: return True / return False *)
+    open_block; ksimp;
+    match goal with |- context [forfield_loop ?x ?st (map of_seq ls) ?en9] =>
+      destruct (forfield_loop_rule of_seq (fun d => if mem c (d_tail d) then Some (OReturn (VBool true)) else None)
+                                   (fun e => e 1%N = VObj c) (fun _ _ => True) x st of_seq) with (xs := ls) (en := en9)
+        as (l' & e1 & Hloop)
+    end;
+    [ intros en0 d Hi; open_block; repeat sym0; repeat (bool_case; repeat sym0); close_step
+    | reflexivity
+    | pose proof (first_hit_if (fun d => mem c (d_tail d)) (OReturn (VBool true)) ls) as Hh;
+      unfold in_tails;
+      destruct (first_hit _ ls) as [[a o]|]; destruct Hloop as [Hloop Hp];
+      [ destruct Hh as [-> Hh] | ]; rewrite Hloop, Hh; repeat sym0; reflexivity ] ].
 Qed.
 
 Lemma heads_ir_eq ls : heads_ir mro_code (VDL (of_seqs ls)) = EV (VList (map of_head (heads ls))).
 Proof.
-  open1. cbn -[map_eres head_ir tail_ir].
+  open_calls. cbn [c_heads mro_code]. ksimp.
   rewrite (map_eres_map _ of_seq (fun d => of_head (d_head d))).
   - cbn. unfold heads. now rewrite map_map.
-  - intros d _. cbn -[head_ir tail_ir]. now rewrite head_ir_eq.
+  - intros d _. repeat sym0. reflexivity.
 Qed.
 
 Lemma tails_ir_eq v : tails_ir mro_code (VDL v) = EV (VDL v).
@@ -72,71 +205,77 @@ Proof. reflexivity. Qed.
 
 Lemma exhausted_ir_eq ls : exhausted_ir mro_code (VDL (of_seqs ls)) = EV (VBool (exhausted ls)).
 Proof.
-  open1. cbn -[map_eres head_ir tail_ir].
-  rewrite (map_eres_map _ of_seq (fun d => VBool (Nat.eqb (length d) 0))).
-  - cbn -[truths]. rewrite truths_bools, forallb_id_map. reflexivity.
-  - intros d _. cbn -[head_ir tail_ir]. now rewrite ?map_length.
+  open_calls. cbn [c_exhausted mro_code]. ksimp.
+  first
+  [ (* all(map(lambda x: len(x) == 0, self._lists)) *)
+    rewrite (map_eres_map _ of_seq (fun d => VBool (Nat.eqb (length d) 0)));
+    [ cbn -[truths]; rewrite truths_bools, forallb_id_map; reflexivity
+    | intros d _; repeat sym0; reflexivity ]
+  | (* not any(self._lists) *)
+    rewrite truths_seqs; ksimp; rewrite existsb_id_map, exhausted_not_any; reflexivity
+  | (* for l in self._lists: if len(l) != 0: return False / return True *)
+    open_block; ksimp;
+    match goal with |- context [forfield_loop ?x ?st (map of_seq ls) ?en9] =>
+      destruct (forfield_loop_rule of_seq (fun d => if negb (Nat.eqb (length d) 0) then Some (OReturn (VBool false)) else None)
+                                   (fun e => True) (fun _ _ => True) x st of_seq) with (xs := ls) (en := en9)
+        as (l' & e1 & Hloop)
+    end;
+    [ intros en0 d Hi; open_block; repeat sym0; repeat (bool_case; repeat sym0); close_step
+    | exact I
+    | pose proof (first_hit_if (fun d => negb (Nat.eqb (length d) 0)) (OReturn (VBool false)) ls) as Hh;
+      rewrite <- exhausted_not_any;
+      destruct (first_hit _ ls) as [[a o]|]; destruct Hloop as [Hloop Hp];
+      [ destruct Hh as [-> Hh] | ]; rewrite Hloop, Hh; repeat sym0; reflexivity ] ].
 Qed.
+
+(* ---- layer 1b: __init__ and remove ----------------------------------------------------------------------------- *)
+Lemma head_ir_cons y t : head_ir mro_code (VList (VObj y :: map VObj t)) = EV (VObj y).
+Proof. exact (head_ir_eq (y :: t)). Qed.
+Lemma head_ir_nil : head_ir mro_code (VList []) = EV VNone.
+Proof. exact (head_ir_eq []). Qed.
+Lemma tail_ir_cons y t : tail_ir mro_code (VList (VObj y :: map VObj t)) = EV (of_seq t).
+Proof. exact (tail_ir_eq (y :: t)). Qed.
+
+Ltac sym1 := sym0; rewrite ?head_ir_cons, ?head_ir_nil, ?tail_ir_cons, ?heads_ir_eq, ?tails_ir_eq, ?exhausted_ir_eq, ?contains_ir_eq.
 
 Lemma newdl_ir_eq ls : newdl_ir mro_code (of_seqs ls) = EV (VDL (of_seqs ls)).
 Proof.
-  open1. cbn -[map_eres head_ir tail_ir].
+  open_calls. cbn [c_init mro_code]. ksimp.
   rewrite (map_eres_map _ of_seq of_seq); [reflexivity|]. intros d _. reflexivity.
 Qed.
 
-Notation exec1 := (exec (prop0 mro_code) no_call2 no_call2 no_call1 no_bases no_mro no_merge 0).
-
-(* the loop of DependencyList.remove: `item` is the second positional parameter *)
-Lemma remove_step c d en :
-  en 1%N = VObj c ->
-  exists e1, exec1 code_DependencyList_remove_loop1_body (set en code_DependencyList_remove_loop1_var (of_seq d))
-             = (e1, ONormal)
-             /\ e1 code_DependencyList_remove_loop1_var = of_seq (rm1 c d) /\ e1 1%N = VObj c.
-Proof.
-  intros Hitem. unfold code_DependencyList_remove_loop1_body, code_DependencyList_remove_loop1_var.
-  destruct d as [|x t].
-  - cbn -[head_ir tail_ir]. eexists. split; [reflexivity|]. split; [reflexivity | exact Hitem].
-  - cbn -[head_ir tail_ir]. rewrite (head_ir_eq (x :: t)). cbn -[head_ir tail_ir]. rewrite Hitem.
-    cbn -[head_ir tail_ir]. destruct (N.eqb x c); cbn -[head_ir tail_ir];
-      (eexists; split; [reflexivity|]; split; [reflexivity | exact Hitem]).
-Qed.
-
-Lemma remove_loop c ls : forall en,
-  en 1%N = VObj c ->
-  exists e1, forfield_loop code_DependencyList_remove_loop1_var (exec1 code_DependencyList_remove_loop1_body)
-                           (map of_seq ls) en
-             = (map of_seq (dl_remove c ls), (e1, ONormal)).
-Proof.
-  induction ls as [|d ls IH]; intros en Hitem.
-  - eexists. reflexivity.
-  - cbn [map forfield_loop]. rewrite dl_remove_cons. cbn [map].
-    destruct (remove_step c d en Hitem) as (e' & Hs & Hv & Hi). rewrite Hs.
-    destruct (IH e' Hi) as [e1 H1]. rewrite H1, Hv. eexists. reflexivity.
-Qed.
+Lemma of_seqs_remove c ls : VList (map (fun d => of_seq (rm1 c d)) ls) = of_seqs (dl_remove c ls).
+Proof. unfold of_seqs. now rewrite dl_remove_map, map_map. Qed.
 
 Lemma remove_ir_eq ls c :
   remove_ir mro_code (VDL (of_seqs ls)) (VObj c) = EV (VDL (of_seqs (dl_remove c ls))).
 Proof.
-  open1. cbn [c_remove mro_code]. unfold code_DependencyList_remove, code_DependencyList_remove_loop1.
-  cbn -[forfield_loop head_ir tail_ir code_DependencyList_remove_loop1_var code_DependencyList_remove_loop1_body].
-  match goal with |- context [forfield_loop ?v ?st ?l ?e] => destruct (remove_loop c ls e) as [e1 H1] end.
-  { reflexivity. }
-  rewrite H1. cbn. reflexivity.
+  open_calls. cbn [c_remove mro_code]. ksimp. repeat open_block. repeat (progress sym1).
+  first
+  [ (* for i in self._lists: ... i.popleft() *)
+    match goal with |- context [forfield_loop ?x ?st (map of_seq ls) ?en9] =>
+      destruct (forfield_loop_rule of_seq (fun _ => None) (fun e => e 1%N = VObj c) (fun _ _ => True) x st
+                                   (fun d => of_seq (rm1 c d))) with (xs := ls) (en := en9) as (l' & e1 & Hloop)
+    end;
+    [ intros en0 d Hi; open_block; destruct d as [|y t]; repeat (progress sym1);
+      repeat (bool_case; repeat (progress sym1)); close_step
+    | reflexivity
+    | replace (first_hit (fun _ : list cls => None) ls) with (@None (list cls * outcome)) in Hloop
+        by (clear; induction ls; [reflexivity | assumption]);
+      destruct Hloop as [Hloop _]; rewrite Hloop; ksimp; now rewrite of_seqs_remove ]
+  | (* for i, h in zip(self._lists, self.heads): ... i.popleft() *)
+    unfold heads; rewrite map_map;
+    match goal with |- context [forfieldzip_loop ?x ?y ?st (map of_seq ls) _ ?en9] =>
+      destruct (forfieldzip_loop_rule of_seq (fun d => of_head (d_head d)) (fun d => of_seq (rm1 c d))
+                                      (fun e => e 1%N = VObj c) x y st) with (xs := ls) (en := en9) as (e1 & Hloop & _)
+    end;
+    [ intros en0 d Hi; open_block; destruct d as [|y0 t]; repeat (progress sym1);
+      repeat (bool_case; repeat (progress sym1)); close_step
+    | reflexivity
+    | rewrite Hloop; ksimp; now rewrite of_seqs_remove ] ].
 Qed.
 
-(* ---- layer 2: _merge ------------------------------------------------------------------------------------- *)
-Notation exec2 w := (exec (prop1 mro_code) (contains_ir mro_code) (remove_ir mro_code) (newdl_ir mro_code)
-                          no_bases no_mro no_merge w).
-
-Definition inv (en : env) (ls : list (list cls)) (acc : list cls) : Prop :=
-  en role_merge_result = of_seq acc /\ en role_merge_lin = VDL (of_seqs ls).
-
-Ltac keep := cbn -[heads_ir tails_ir exhausted_ir contains_ir remove_ir newdl_ir head_ir tail_ir for_loop while_loop].
-(* the same, keeping the named loop blocks of _merge folded *)
-Ltac keepb := cbn -[heads_ir tails_ir exhausted_ir contains_ir remove_ir newdl_ir head_ir tail_ir for_loop while_loop
-                    code_merge_loop1 code_merge_loop1_body code_merge_loop2 code_merge_loop2_body code_merge_loop2_else
-                    code_merge_loop2_var].
-
+(* ---- the search for the next candidate ------------------------------------------------------------------------- *)
 Definition cand (h : option cls) (ls : list (list cls)) : option cls :=
   match h with
   | Some c => if truthy c && negb (in_tails c ls) then Some c else None
@@ -147,63 +286,119 @@ Lemma first_candidate_cons h hs ls :
   first_candidate (h :: hs) ls = match cand h ls with Some c => Some c | None => first_candidate hs ls end.
 Proof. destruct h as [c|]; cbn [first_candidate cand]; [destruct (truthy c && negb (in_tails c ls))|]; reflexivity. Qed.
 
-(* one pass through the body of `for head in linearizations.heads` *)
-Lemma merge_step w ls acc h en :
-  inv en ls acc ->
-  exists e1,
-    exec2 w code_merge_loop2_body (set en code_merge_loop2_var (of_head h))
-    = (e1, match cand h ls with Some _ => OBreak | None => ONormal end)
-    /\ match cand h ls with Some c => inv e1 (dl_remove c ls) (acc ++ [c]) | None => inv e1 ls acc end.
+Lemma first_hit_cand (o : cls -> outcome) hs ls :
+  match first_candidate hs ls with
+  | Some c => exists h, first_hit (fun h => option_map o (cand h ls)) hs = Some (h, o c) /\ cand h ls = Some c
+  | None => first_hit (fun h => option_map o (cand h ls)) hs = None
+  end.
 Proof.
-  unfold inv, role_merge_result, role_merge_lin. intros [Hres Hlin].
-  unfold code_merge_loop2_body, code_merge_loop2_var.
-  destruct h as [c|]; cbn [of_head cand].
-  - keep. destruct (truthy c) eqn:Htr; keep; rewrite ?Htr; keep.
-    + rewrite ?Hlin. keep; rewrite ?Htr; keep. rewrite tails_ir_eq. keep. rewrite contains_ir_eq. keep.
-      destruct (in_tails c ls) eqn:Hin; keep.
-      * eexists. split; [reflexivity|]. split; keep; assumption.
-      * rewrite Hres. unfold of_seq at 1. keep. rewrite Hlin, remove_ir_eq. keep.
-        eexists. split; [reflexivity|]. split; keep; [apply of_seq_app | reflexivity].
-    + eexists. split; [reflexivity|]. split; keep; assumption.
-  - keep. eexists. split; [reflexivity|]. split; keep; assumption.
+  induction hs as [|h hs IH]; [reflexivity|]. rewrite first_candidate_cons. cbn [first_hit].
+  destruct (cand h ls) as [c|] eqn:Hc; cbn [option_map]; [|exact IH].
+  exists h. split; [reflexivity | exact Hc].
 Qed.
 
-Lemma merge_for w ls acc hs : forall en,
-  inv en ls acc ->
-  exists e1,
-    for_loop code_merge_loop2_var (exec2 w code_merge_loop2_body) (exec2 w code_merge_loop2_else) (map of_head hs) en
-    = (e1, match first_candidate hs ls with Some _ => ONormal | None => ORaise ValueError end)
-    /\ match first_candidate hs ls with Some c => inv e1 (dl_remove c ls) (acc ++ [c]) | None => True end.
+Ltac sym2 := sym1; rewrite ?remove_ir_eq, ?newdl_ir_eq.
+
+(* layer 1c: a helper function, if there is one, returns the first acceptable head or raises ValueError *)
+Lemma helper0_eq body :
+  nth_error (c_helpers mro_code) 0 = Some body -> forall ls,
+  helper_ir mro_code 0 (VDL (of_seqs ls))
+  = match first_candidate (heads ls) ls with Some c => EV (VObj c) | None => EX ValueError end.
 Proof.
-  induction hs as [|h hs IH]; intros en Hinv.
-  - eexists. split; [reflexivity | exact I].
-  - cbn [map for_loop]. rewrite first_candidate_cons.
-    destruct (merge_step w ls acc h en Hinv) as (e' & Hs & Hi). rewrite Hs.
-    destruct (cand h ls) as [c|].
-    + exists e'. split; [reflexivity | exact Hi].
-    + exact (IH e' Hi).
+  intros Hb ls.
+  first
+  [ cbn in Hb; discriminate Hb
+  | unfold helper_ir; rewrite Hb; cbn in Hb; injection Hb as <-; unfold call_value, call; ksimp;
+    repeat open_block; repeat (progress sym2);
+    match goal with |- context [for_loop ?x ?st ?el (map of_head (heads ls)) ?en9] =>
+      destruct (for_loop_rule of_head (fun h => option_map (fun c => OReturn (VObj c)) (cand h ls))
+                              (fun e => e 0%N = VDL (of_seqs ls)) (fun _ _ => True) x st el of_head)
+        with (xs := heads ls) (en := en9) as (e1 & Hloop)
+    end;
+    [ intros en0 h Hi; open_block; destruct h as [c0|]; unfold cand; repeat (progress sym2);
+      repeat (bool_case; repeat (progress sym2)); close_step
+    | reflexivity
+    | pose proof (first_hit_cand (fun c => OReturn (VObj c)) (heads ls) ls) as Hh;
+      destruct (first_candidate (heads ls) ls) as [c|];
+      [ destruct Hh as (h & Hh & _); rewrite Hh in Hloop; destruct Hloop as [Hloop _]; rewrite Hloop; reflexivity
+      | rewrite Hh in Hloop; destruct Hloop as [Hloop _]; rewrite Hloop; repeat open_block; ksimp; reflexivity ] ] ].
 Qed.
 
-Definition outcome_of (m : mres) : outcome :=
-  match m with MOk r => OReturn (of_seq r) | MValueError => ORaise ValueError | MOutOfFuel => OFuel end.
+(* ---- layer 2: _merge ------------------------------------------------------------------------------------- *)
+Notation exec2 w := (exec (prop1 mro_code) (contains_ir mro_code) (remove_ir mro_code) (newdl_ir mro_code)
+                          no_bases no_mro no_merge (helper_ir mro_code) w).
 
-Lemma merge_while w f : forall ls acc en,
-  inv en ls acc ->
-  exists e1, while_loop f (exec2 w code_merge_loop1_body) en = (e1, outcome_of (merge_loop f ls acc)).
+Definition inv (en : env) (ls : list (list cls)) (acc : list cls) : Prop :=
+  en role_merge_result = of_seq acc /\ en role_merge_lin = VDL (of_seqs ls).
+
+(* one pass of the while loop; b: the loop is left by `return result` (true) or by break / a false condition (false) *)
+Definition merge_step_spec (b : bool) (step : env -> res) : Prop :=
+  forall en ls acc, inv en ls acc ->
+    exists e1 o, step en = (e1, o) /\
+      if exhausted ls then (if b then o = OReturn (of_seq acc) else o = OBreak /\ inv e1 ls acc)
+      else match first_candidate (heads ls) ls with
+           | Some c => passes o /\ inv e1 (dl_remove c ls) (acc ++ [c])
+           | None => o = ORaise ValueError
+           end.
+
+Lemma while_merge b step :
+  merge_step_spec b step ->
+  forall f ls acc en, inv en ls acc ->
+    exists e1 o, while_loop f step en = (e1, o) /\
+      match merge_loop f ls acc with
+      | MOk r => if b then o = OReturn (of_seq r) else o = ONormal /\ exists ls', inv e1 ls' r
+      | MValueError => o = ORaise ValueError
+      | MOutOfFuel => o = OFuel
+      end.
 Proof.
-  induction f as [|f IH]; intros ls acc en Hinv.
-  - eexists. reflexivity.
-  - cbn [while_loop merge_loop]. unfold code_merge_loop1_body at 1.
-    pose proof Hinv as [Hres Hlin]. unfold role_merge_result, role_merge_lin in Hres, Hlin.
-    keepb. rewrite ?Hlin. keepb. rewrite exhausted_ir_eq. keepb.
-    destruct (exhausted ls); keepb.
-    + rewrite ?Hres. eexists. reflexivity.
-    + unfold code_merge_loop2 at 1. keepb. rewrite ?Hlin. keepb. rewrite heads_ir_eq. keepb.
-      destruct (merge_for w ls acc (heads ls) en Hinv) as (e1 & H1 & H2).
-      rewrite H1. destruct (first_candidate (heads ls) ls) as [c|].
-      * apply IH. exact H2.
-      * eexists. reflexivity.
+  intros Hstep. induction f as [|f IH]; intros ls acc en Hinv.
+  - do 2 eexists. split; reflexivity.
+  - cbn [while_loop merge_loop]. destruct (Hstep en ls acc Hinv) as (e1 & o & Hst & Hsp). rewrite Hst.
+    destruct (exhausted ls).
+    + destruct b.
+      * subst o. do 2 eexists. split; reflexivity.
+      * destruct Hsp as [-> Hi]. do 2 eexists. split; [reflexivity|]. split; [reflexivity | now exists ls].
+    + destruct (first_candidate (heads ls) ls) as [c|].
+      * destruct Hsp as [[-> | ->] Hi]; exact (IH _ _ _ Hi).
+      * subst o. do 2 eexists. split; reflexivity.
 Qed.
+
+Ltac inv_goals := unfold inv, role_merge_result, role_merge_lin in *; repeat split; ksimp; env_rw; auto using of_seq_app.
+
+Ltac merge_step_tac :=
+  let en := fresh "en" in let ls := fresh "ls" in let acc := fresh "acc" in
+  let Hinv := fresh "Hinv" in let Hres := fresh "Hres" in let Hlin := fresh "Hlin" in let Hex := fresh "Hex" in
+  let Hloop := fresh "Hloop" in let Hh := fresh "Hh" in let Hc := fresh "Hc" in let Hp := fresh "Hp" in
+  let Hr0 := fresh "Hr0" in let Hl0 := fresh "Hl0" in let e1 := fresh "e1" in let c := fresh "c" in
+  let e0 := fresh "e0" in let h := fresh "h" in let c0 := fresh "c0" in
+  intros en ls acc Hinv; pose proof Hinv as [Hres Hlin]; unfold role_merge_result, role_merge_lin in Hres, Hlin;
+  open_block; repeat (progress sym2);
+  destruct (exhausted ls) eqn:Hex; repeat (progress sym2);
+  [ do 2 eexists; (split; [reflexivity|]); first [ reflexivity | split; [reflexivity | exact Hinv] ]
+  | first
+    [ (* for head in linearizations.heads: ... break / else: raise *)
+      repeat open_block; repeat (progress sym2);
+      match goal with |- context [for_loop ?x ?st ?el (map of_head (heads ls)) ?en9] =>
+        destruct (for_loop_rule of_head (fun h => option_map (fun _ => OBreak) (cand h ls))
+                                (fun e => inv e ls acc)
+                                (fun h e => match cand h ls with Some c => inv e (dl_remove c ls) (acc ++ [c]) | None => False end)
+                                x st el of_head) with (xs := heads ls) (en := en9) as (e1 & Hloop)
+      end;
+      [ intros e0 h [Hr0 Hl0]; unfold role_merge_result, role_merge_lin in Hr0, Hl0;
+        open_block; destruct h as [c0|]; unfold cand; repeat (progress sym2);
+        repeat (bool_case; repeat (progress sym2));
+        do 2 eexists; (split; [reflexivity|]); cbn; unfold passes; repeat split; auto; inv_goals
+      | exact Hinv
+      | pose proof (first_hit_cand (fun _ => OBreak) (heads ls) ls) as Hh;
+        destruct (first_candidate (heads ls) ls) as [c|];
+        [ destruct Hh as (h & Hh & Hc); rewrite Hh in Hloop; destruct Hloop as [Hloop Hp]; rewrite Hloop;
+          rewrite Hc in Hp; do 2 eexists; split; [reflexivity | split; [left; reflexivity | exact Hp]]
+        | rewrite Hh in Hloop; destruct Hloop as [Hloop _]; rewrite Hloop; repeat open_block; ksimp;
+          do 2 eexists; split; reflexivity ] ]
+    | (* candidate = helper(linearizations) ... *)
+      erewrite helper0_eq by reflexivity;
+      destruct (first_candidate (heads ls) ls) as [c|]; repeat (progress sym2);
+      do 2 eexists; (split; [reflexivity|]); first [ reflexivity | split; [unfold passes; auto | inv_goals] ] ] ].
 
 Lemma args_fuel_seqs ls : args_fuel (map of_seq ls) = S (total_len ls).
 Proof.
@@ -211,17 +406,26 @@ Proof.
   cbn [map fold_right total_len of_seq]. rewrite map_length. f_equal. exact IH.
 Qed.
 
+Ltac merge_path b e1 o Hw Hsp :=
+  match goal with |- context [while_loop ?f ?st ?en9] =>
+    let Hstep := fresh "Hstep" in
+    assert (Hstep : merge_step_spec b st) by merge_step_tac;
+    match goal with ls : list (list cls) |- _ =>
+      destruct (while_merge b st Hstep f ls [] en9) as (e1 & o & Hw & Hsp); [split; reflexivity|]
+    end
+  end.
+
 Lemma merge_ir_eq ls : merge_ir mro_code (map of_seq ls) = eres_of_mres (merge ls).
 Proof.
   unfold merge_ir, call_value, call, merge. rewrite args_fuel_seqs.
   remember (merge_loop (S (total_len ls)) ls []) as m eqn:Hm.
-  cbn [c_merge mro_code]. unfold code_merge. keepb.
-  change (VList (map of_seq ls)) with (of_seqs ls). rewrite newdl_ir_eq. keepb.
-  unfold code_merge_loop1 at 1. cbn [exec].
-  match goal with |- context [while_loop ?f ?st ?e] =>
-    destruct (merge_while (S (total_len ls)) (S (total_len ls)) ls [] e) as [e1 H1] end.
-  { split; reflexivity. }
-  rewrite H1, <- Hm. destruct m; reflexivity.
+  cbn [c_merge mro_code]. unfold code_merge. ksimp. fold (of_seqs ls). repeat (progress sym2).
+  repeat open_block. cbn [exec].
+  first
+  [ merge_path true e1 o Hw Hsp; rewrite Hw; rewrite <- Hm in Hsp; destruct m; subst o; reflexivity
+  | merge_path false e1 o Hw Hsp; rewrite Hw; rewrite <- Hm in Hsp; destruct m;
+    [ destruct Hsp as (-> & ls' & Hr & Hl); unfold role_merge_result in Hr; ksimp; env_rw; reflexivity
+    | subst o; reflexivity | subst o; reflexivity ] ].
 Qed.
 
 (* ---- layer 3: mro ------------------------------------------------------------------------------------------ *)
@@ -246,22 +450,18 @@ Proof.
   induction f as [|f IH]; intros c; [reflexivity|].
   cbn [mro_ir]. rewrite mro_S. unfold call_value, call. cbn [c_mro mro_code]. unfold code_mro.
   keep3.
-  destruct (getbases h c) as [|b bs] eqn:Hb.
+  destruct (getbases h c) as [|b bs] eqn:Hb; cbv zeta; repeat (progress (keep3; rewrite ?Hb)).
   - reflexivity.
-  - cbv zeta. keep3.
+  - change (VObj b :: map VObj bs) with (map VObj (b :: bs)).
+    rewrite (comp_mro (mro f h)) by (intros x; cbn -[mro_ir]; now rewrite IH).
+    destruct (mro_all (mro f h) (b :: bs)) as [ms| |]; repeat (progress (keep3; rewrite ?Hb)); try reflexivity.
     change (VObj b :: map VObj bs) with (map VObj (b :: bs)).
-    rewrite (comp_mro (mro f h)).
-    + destruct (mro_all (mro f h) (b :: bs)) as [ms| |]; try reflexivity.
-      keep3. change [of_seq (b :: bs)] with (map of_seq [b :: bs]).
-      rewrite <- map_app, merge_ir_eq.
-      destruct (merge (ms ++ [b :: bs])) as [r| |]; try reflexivity.
-      cbn. unfold mres_of. cbn. now rewrite objs_map.
-    + intros x. cbn -[mro_ir]. now rewrite IH.
+    change (VList (map VObj (b :: bs))) with (of_seq (b :: bs)).
+    change [of_seq (b :: bs)] with (map of_seq [b :: bs]).
+    rewrite <- map_app, merge_ir_eq.
+    destruct (merge (ms ++ [b :: bs])) as [r| |]; keep3; try reflexivity.
+    unfold mres_of. cbn. now rewrite objs_map.
 Qed.
-
-(* the statements Props/C05.v closes *)
-Lemma code_merge_is_model ls : merge_ir mro_code (map of_seq ls) = eres_of_mres (merge ls).
-Proof. exact (merge_ir_eq ls). Qed.
 
 (* the translated code computes CPython's MRO: composition with Proofs/MroProofs.v *)
 From PydoctorVerif Require Import Spec.C3.
